@@ -106,6 +106,21 @@ T7 = [
  ("C27","m2","internal/configwatcher/reload_after_error_demo_test.go",{"C27":"acceptable_content_never_applied"},"missed, then caught after strengthening","liveness once changes stop: three reload intervals after the last operation the running config is what startup would accept from the files","C27-m4"),
  ("C31","m1","collect/cache/zz_demo_m1_test.go",{"C31":"dropped_decision_not_answered_dropped"},"caught","","C31-m5"),
 ]
+T8 = [
+ # wave 8 (/tmp/mutout8): m1 must need nothing but an unusual-but-legal configuration value, m2 a sequence of at least three steps.
+ # Not stored (repeats): C01 m2 (= C31-m3), C02 m1 (= C01 m1 of this wave), C04 m1 (= C04-m2), C04 m2 (= C04-m1), C16 m2 (= C01-m2), C19 m2 (= C19-m4), C26 m1 (= C26-m2).
+ ("C01","m1","collect/demo_m1_test.go",{"C02":"dry_run_span_not_forwarded","C05":"dry_run_span_not_forwarded"},"caught","","C01-m3"),
+ ("C02","m2","collect/demo_m2_test.go",{"C16":"late_span_does_not_follow_recorded_decision"},"caught (by C16; C02's single-node runs have no stress relief)","","C02-m4"),
+ ("C03","m1","collect/demo_c03m1_test.go",{"C03":"tick_decides_wrong_number"},"caught","","C03-m4"),
+ ("C03","m2","collect/demo_c03m2_test.go",{"C03":"send_reason"},"missed, then caught after strengthening","the oracle took 'has a root' from the collector's own decision span, so it agreed with whatever the collector believed; it now takes it from the reference model (a root was processed into the live trace). New traffic: traces whose spans all arrive inside one tick interval, more of them than any span limit, the root anywhere among them","C03-m5"),
+ ("C06","m1","collect/demo_c06m1_test.go",{"C06":"root_counts"},"caught","","C06-m5"),
+ ("C06","m2","collect/demo_c06m2_test.go",{"C06":"rule_reason"},"missed, then caught after strengthening","new kind of plan (15% of C06's): one worker decides 4-12 traces under a rules-based sampler whose rules have different names, the reasons recurring in random order, then a late span arrives for each trace and must carry its own trace's reason","C06-m6"),
+ ("C16","m1","collect/zz_demo_m1_test.go",{"C16":"late_span_does_not_follow_stress_decision"},"missed, then caught after strengthening","StressRelief.SamplingRate is now a parameter of the plan (1, 2, 3, 100) instead of the constant 2","C16-m7"),
+ ("C19","m1","transmit/demo_c19_m1_test.go",{"C19":"span_not_handled_exactly_once","C26":"event_sent_to_wrong_destination","C23":"accepted_event_not_accounted_once"},"missed, then caught after strengthening","Network.HoneycombAPI (World B) and the events' API hosts (World C) are written with a trailing slash in a quarter / a fifth of the plans; the simulated Honeycomb only serves /1/batch/<dataset>","C19-m6"),
+ ("C26","m2","transmit/demo_c26_m2_test.go",{"C26":"batch_dispatched_late"},"caught","","C26-m7"),
+]
+if os.environ.get("WAVE") == "8":
+    T = T8
 if os.environ.get("WAVE") == "3":
     T = T3
 if os.environ.get("WAVE") == "7":
